@@ -331,5 +331,8 @@ PROPS["C17"]["explanation"] += " (DDBLOCKSZ) the end-of-file mark and descriptor
 PROPS["C05"]["rules"] = PROPS["C05"]["rules"] + [rules_idioms.rule_window_test]
 PROPS["C05"]["explanation"] += " (WINDOW) the test whether a bit-file position lies in the buffered block is the half-open one, [block_offset, block_offset + BITBUF_SIZE)."
 
+PROPS["C18"]["rules"] = PROPS["C18"]["rules"] + [rules_idioms.rule_option_siblings]
+PROPS["C18"]["explanation"] = PROPS["C18"]["explanation"].replace(" Not decided (value-level)", " (OPTSIB) the -t and -c option handlers apply the same tests to their object lists. Not decided (value-level)")
+
 NOT_APPLICABLE = {}
 
